@@ -57,7 +57,7 @@ class PaddingTransformer(_PanelToPanelTransformer):
 
     def _create_pad(self, series):
         out = np.full(self.pad_length_, self.fill_value, np.float)
-        out[: len(series)] = series.iloc[: len(series)]
+        out[: len(series)] = np.asarray(series)
         return out
 
     def transform(self, X, y=None):
